@@ -72,6 +72,14 @@ class Seq:
     return x in self.items
 
 
+class Remat:
+  """A configurable class with a parameter spelled like the call handler's own first parameter."""
+
+  def __init__(self, fn_or_cls=None, policy=None):
+    self.fn_or_cls, self.policy = fn_or_cls, policy
+    sigs.LOG.append(('Remat', None))
+
+
 class LS(list):
   """A list subclass with its own constructor."""
 
@@ -101,7 +109,7 @@ import functools
 from fiddle import arg_factory
 from fiddle._src.experimental import auto_config as ac
 from fiddle._src.experimental.with_tags import with_tags
-from harness.c11 import Leaf, Pair, Box, Seq, LS, mk, helper, T0
+from harness.c11 import Leaf, Pair, Box, Seq, LS, Remat, mk, helper, T0
 '''
 
 # (name, decorator options, body lines).  Parameters are always (p, q=5, flag=False).
@@ -140,6 +148,7 @@ BODIES = [
     ('list_subclass', '', ['return Pair(LS([Leaf(p), q]), q)']),
     ('tagged_factory_reused', '', ['t = with_tags(functools.partial(Leaf, p), T0)',
                                    'return Box(arg_factory.partial(Pair, a=t), t, k=arg_factory.partial(Pair, b=t))']),
+    ('keyword_named_like_handler_parameter', '', ['return Pair(Remat(fn_or_cls=Leaf(p), policy=q), Remat(Leaf(q)))']),
     ('shadowed_builtin_names', '', ['zip = Leaf', 'sorted = mk', 'return Pair(zip(p), [sorted(q), len])']),
     ('shadowed_builtin_in_comprehension', 'experimental_allow_control_flow=True',
      ['filter = Leaf', 'return Box(*[filter(i + p) for i in range(2)], m=max)']),
@@ -225,6 +234,18 @@ def _source():
             '  return prog, plain',
             'prog_closure_attr_load, prog_closure_attr_load__plain = make_closure4(_types.SimpleNamespace(relu=3))',
             '',
+            '# a free variable that is rebound in the enclosing scope after the decorator has run (late binding)',
+            'def make_closure5():',
+            '  width = 4',
+            '  @ac.auto_config',
+            '  def prog(p, q=5, flag=False):',
+            '    return Pair(Leaf(p + width), [width, q])',
+            '  def plain(p, q=5, flag=False):',
+            '    return Pair(Leaf(p + width), [width, q])',
+            '  width = 16',
+            '  return prog, plain',
+            'prog_closure_rebound, prog_closure_rebound__plain = make_closure5()',
+            '',
             'class Holder:',
             '  @ac.auto_config',
             '  @staticmethod',
@@ -264,7 +285,7 @@ def _load():
 
 GEN = _load()
 PROGRAMS = [n for n, _, _ in BODIES] + ['closure', 'closure_object', 'staticmethod', 'classmethod', 'closure_attrs',
-                                         'closure_attr_load']
+                                         'closure_attr_load', 'closure_rebound']
 
 
 SINGLE_CALL = {'inlined_partial'}
@@ -280,7 +301,7 @@ def _obs(x, memo):
     memo[id(x)] = (x, out)
     out.extend([_obs(x(), memo) for _ in range(_CALLS[0])])
     return out
-  if isinstance(x, (Leaf, Pair, Box, Seq)):
+  if isinstance(x, (Leaf, Pair, Box, Seq, Remat)):
     out = [type(x).__name__]
     memo[id(x)] = (x, out)
     for k in sorted(vars(x)):
